@@ -338,3 +338,8 @@ RULES = [
     Rule("C03.P6", rule_P6, floor=5, doc="count and sibling branches"),
     Rule("C03.P7", rule_P7, floor=16, doc="solver slots (the stored solution is a shortest route): C02.S1-S8 re-judged"),
 ]
+
+from sa import dims as _dims  # noqa: E402
+
+RULES.append(Rule("C03.AX", _dims.make_rule("C03", "C03.AX"), floor=1,
+                  doc="axis-extent agreement: coordinate components are bounded by the extent of their own axis (E13)"))
